@@ -68,21 +68,31 @@ def build(tier):
 
 
 # ======================================================================================================
-# U7.idx-inv: every arm of the per-op match as a transfer function -- the tracking invariant is preserved
+# U7.idx-inv: the retain_mut closure as a transfer function -- the tracking invariant is preserved by every op
 # ======================================================================================================
-from units.c07 import item, ifn, filter_enum, VO, VI, CC  # noqa: E402
+from units.c07 import item, ifn, filter_enum, VO, VI, VR, CC, ML  # noqa: E402
 import re  # noqa: E402
 
 KEEP_INV = ["ADD", "ADDI", "MUL", "MOVI", "LW", "SW", "MOVE"]
 
-ENV_INV = r'''
+ENV_INV = r"""
 #![allow(unused, dead_code, non_snake_case, unreachable_patterns, clippy::all)]
 // ---------------- environment (hand-written shims, listed as assumptions) ----------------
+pub mod either { pub use ::either::Either; }
+/// the paths the real file imports from resolve here too
+pub mod asm_lang { pub use super::{ControlFlowOp, JumpType, Label, Op, OrganizationalOp, VirtualImmediate12, VirtualImmediate18, VirtualOp, VirtualRegister, ConstantRegister}; }
 #[derive(Clone, Debug, PartialEq)] pub struct Span;
 impl Span { pub fn dummy() -> Span { Span } }
 #[derive(Debug)] pub enum CompileError { Immediate12TooLarge { val: u64, span: Span }, Immediate18TooLarge { val: u64, span: Span } }
-/// shim of VirtualRegister: three virtual registers named by a small integer
-#[derive(Hash, PartialEq, Eq, Debug, Clone)] pub enum VirtualRegister { Virtual(u8) }
+/// shim of VirtualRegister: the virtual register *name* is a small integer instead of a String
+#[derive(Hash, PartialEq, Eq, Debug, Clone)] pub enum VirtualRegister { Virtual(u8), Constant(ConstantRegister) }
+/// shim of asm_lang::Label (a usize newtype)
+#[derive(Clone, Copy, Debug, PartialEq, Eq)] pub struct Label(pub usize);
+pub type OrganizationalOp = ControlFlowOp<VirtualRegister>;
+/// shim of asm_lang::Op: `comment` and `owning_span` are not read by the closure
+pub struct Op { pub opcode: either::Either<VirtualOp, OrganizationalOp> }
+/// shim of DataSection: only consulted by the LoadDataId arm, which is dropped (R8)
+pub struct DataSection;
 pub mod compiler_constants {
     @CONST_EIGHTEEN_BITS@
     @CONST_TWELVE_BITS@
@@ -99,6 +109,7 @@ impl<K: PartialEq + Clone, V> FxHashMap<K, V> {
         unreachable!("map shim capacity exceeded")
     }
     pub fn remove(&mut self, k: &K) -> Option<V> { for s in self.slots.iter_mut() { if matches!(s, Some((a, _)) if a == k) { return s.take().map(|e| e.1); } } None }
+    pub fn clear(&mut self) { for s in self.slots.iter_mut() { *s = None; } }
     pub fn entry(&mut self, key: K) -> EntryShim<'_, K, V> { EntryShim { map: self, key } }
 }
 impl<'a, K: PartialEq + Clone, V> EntryShim<'a, K, V> {
@@ -109,6 +120,12 @@ impl<'a, K: PartialEq + Clone, V> EntryShim<'a, K, V> {
     }
 }
 // ---------------- extracted verbatim ----------------
+#[derive(Hash, PartialEq, Eq, Debug, Clone)]
+@ConstantRegister@
+#[derive(Clone, Debug)]
+@JumpType@
+#[derive(Clone, Debug)]
+@ControlFlowOp@
 #[derive(Clone, Debug)]
 @VirtualImmediate12@
 impl VirtualImmediate12 {
@@ -129,21 +146,20 @@ impl VirtualImmediate18 {
 @record_new_def@
 @get_def_version@
 @process_add@
-/// R5 lifting + R8: the per-op `match op { .. }` of the retain_mut closure with the arms of the kept variants, verbatim;
-/// `retain` is the closure's local, returned
-pub fn step_arm(mut reg_contents: &mut FxHashMap<VirtualRegister, RegContents>, mut latest_version: &mut FxHashMap<VirtualRegister, u32>, op: &mut VirtualOp) -> bool {
-    let mut retain = true;
-    @MATCH@
-    retain
-}
+/// R5 lifting + R8: the closure passed to `self.ops.retain_mut(|op| {..})`, verbatim, as a function of the two tables
+/// it captures; the arms of unmodelled VirtualOp variants are dropped from the inner match
+pub fn step(mut reg_contents: &mut FxHashMap<VirtualRegister, RegContents>, mut latest_version: &mut FxHashMap<VirtualRegister, u32>,
+            data_section: &DataSection, @OPPARAM@: &mut Op) -> bool @CLOSURE_BODY@
 
 #[cfg(kani)]
 mod h {
     use super::*;
+    use super::either::Either;
     type RC = FxHashMap<VirtualRegister, RegContents>;
     type LV = FxHashMap<VirtualRegister, u32>;
-    fn ix(r: &VirtualRegister) -> usize { match r { VirtualRegister::Virtual(i) => *i as usize } }
-    fn reg(i: u8) -> VirtualRegister { VirtualRegister::Virtual(i) }
+    /// the harness's register file: two virtual registers and the reserved call-return-value register
+    fn reg(i: u8) -> VirtualRegister { if i % 3 == 2 { VirtualRegister::Constant(ConstantRegister::CallReturnValue) } else { VirtualRegister::Virtual(i % 3) } }
+    fn ix(r: &VirtualRegister) -> usize { match r { VirtualRegister::Virtual(i) => (*i % 2) as usize, VirtualRegister::Constant(_) => 2 } }
     fn version(lv: &LV, r: &VirtualRegister) -> u32 { match lv.get(r) { Some(v) => *v, None => 0 } }
     /// THE TRACKING INVARIANT: what the tables say about a register is true of the machine state `val`
     ///  - Constant(c): the register holds c
@@ -184,15 +200,17 @@ mod h {
     /// address of a word access `base + 8 * imm` (u128: no wrap)
     fn word_addr(val: &[u64; 3], base: &VirtualRegister, imm: &VirtualImmediate12) -> u128 { val[ix(base)] as u128 + 8 * imm.value() as u128 }
 
-    fn check(mut op: VirtualOp) {
+    fn check(vop: VirtualOp) {
         let (mut rc, mut lv) = any_tables();
         let val: [u64; 3] = kani::any();
         kani::assume(inv(&rc, &lv, &val));
-        let before = op.clone();
-        let retain = step_arm(&mut rc, &mut lv, &mut op);
+        let before = vop.clone();
+        let mut op = Op { opcode: Either::Left(vop) };
+        let retain = step(&mut rc, &mut lv, &DataSection, &mut op);
+        let after = match &op.opcode { Either::Left(v) => v.clone(), Either::Right(_) => { assert!(false, "OB: the instruction is replaced by an organizational op"); return; } };
         // the instruction that will run (if any) must do what the original did, in the state `val`
         let mut post = val;
-        match (&before, &op) {
+        match (&before, &after) {
             (VirtualOp::ADD(d, a, b), VirtualOp::ADD(d2, a2, b2)) => {
                 assert!(retain && d == d2 && a == a2 && b == b2, "OB: an ADD is removed or rewritten");
                 let s = val[ix(a)] as u128 + val[ix(b)] as u128; kani::assume(s <= u64::MAX as u128);   // otherwise the VM panics: no successor state
@@ -229,11 +247,41 @@ mod h {
             _ => assert!(false, "OB: the instruction is replaced by one of a different kind"),
         }
         assert!(inv(&rc, &lv, &post), "OB: after the step the tables claim something about a register that is not true of the machine state (stale constant / base / version)");
-        std::mem::forget((rc, lv, op, before));
+        std::mem::forget((rc, lv, op, before, after));
+    }
+    /// organizational ops: what the machine state can be when control reaches the op AFTER this one
+    ///  - Label: control may arrive from anywhere -> every register arbitrary
+    ///  - unconditional jump, JumpToAddr, ReturnFromCall: control never reaches the next op -> nothing to show
+    ///  - conditional jump falling through, Comment, PushAll, offset placeholders: registers untouched
+    ///  - call: the callee returns with the reserved registers ($$retv here) overwritten; virtual registers are saved and restored around it
+    ///  - PopAll: the general registers are restored from the stack -> virtual registers arbitrary
+    #[kani::proof] #[kani::unwind(5)]
+    fn org_ops() {
+        let (mut rc, mut lv) = any_tables();
+        let val: [u64; 3] = kani::any();
+        kani::assume(inv(&rc, &lv, &val));
+        let l = Label(kani::any::<u8>() as usize % 3);
+        let mut post = val;
+        let o: OrganizationalOp = match kani::any::<u8>() % 9 {
+            0 => { post = kani::any(); OrganizationalOp::Label(l) }
+            1 => OrganizationalOp::Comment,
+            2 => { kani::assume(false); OrganizationalOp::Jump { to: l, type_: JumpType::Unconditional } }
+            3 => OrganizationalOp::Jump { to: l, type_: JumpType::NotZero(any_reg()) },
+            4 => { post[2] = kani::any(); OrganizationalOp::Jump { to: l, type_: JumpType::Call } }
+            5 => OrganizationalOp::PushAll(l),
+            6 => { post[0] = kani::any(); post[1] = kani::any(); OrganizationalOp::PopAll(l) }
+            7 => OrganizationalOp::ConfigurablesOffsetPlaceholder,
+            _ => OrganizationalOp::DataSectionOffsetPlaceholder,
+        };
+        let mut op = Op { opcode: Either::Right(o) };
+        let retain = step(&mut rc, &mut lv, &DataSection, &mut op);
+        assert!(retain, "OB: an organizational op (label, jump, ..) is removed");
+        assert!(inv(&rc, &lv, &post), "OB: facts about registers survive an organizational op after which they need not hold (label reached from elsewhere, call clobbering reserved registers, POPA)");
+        std::mem::forget((rc, lv, op));
     }
     @HARNESSES@
 }
-'''
+"""
 
 GEN = {
     "ADD": "VirtualOp::ADD(any_reg(), any_reg(), any_reg())",
@@ -250,6 +298,7 @@ def build_inv(tier):
     def loc_item(kind, name):
         return {"kind": "in_fn", "fn": HOST, "what": "item", "item": kind, "name": name}
     specs = [
+        {"id": "host", "file": CF, "locator": HOST},
         {"id": "m", "file": CF, "locator": {"kind": "in_fn", "fn": HOST, "what": "match", "scrutinee": "op", "nth": 0}},
         {"id": "VRegDef", "file": CF, "locator": loc_item("struct", "VRegDef")},
         {"id": "RegContents", "file": CF, "locator": loc_item("enum", "RegContents")},
@@ -257,6 +306,9 @@ def build_inv(tier):
         {"id": "get_def_version", "file": CF, "locator": loc_item("fn", "get_def_version")},
         {"id": "process_add", "file": CF, "locator": loc_item("fn", "process_add")},
         {"id": "VirtualOp", "file": VO, "locator": item("enum", "VirtualOp")},
+        {"id": "ConstantRegister", "file": VR, "locator": item("enum", "ConstantRegister")},
+        {"id": "JumpType", "file": ML, "locator": item("enum", "JumpType")},
+        {"id": "ControlFlowOp", "file": ML, "locator": item("enum", "ControlFlowOp")},
         {"id": "VirtualImmediate12", "file": VI, "locator": item("struct", "VirtualImmediate12")},
         {"id": "VirtualImmediate18", "file": VI, "locator": item("struct", "VirtualImmediate18")},
         {"id": "imm12_try_new", "file": VI, "locator": ifn("VirtualImmediate12", "try_new", "-")},
@@ -269,31 +321,39 @@ def build_inv(tier):
     fr = vf.extract(specs)
     rewrites = []
     rep = dict((k, v["text"]) for k, v in fr.items())
-    m = fr["m"]
+    host, m = fr["host"], fr["m"]
+    cls = [c for c in host["closures"] if host["text"][:c["start"]].rstrip().endswith(".retain_mut(") and c["body_is_block"] and len(c["params"]) == 1]
+    if len(cls) != 1:
+        raise vf.Undecided("const_indexing_aggregates_function: expected exactly one `self.ops.retain_mut(|op| {..})` closure, found %d" % len(cls))
+    c = cls[0]
+    body = host["text"][c["body_start"]:c["body_end"]]
     have = {re.match(r"VirtualOp::(\w+)", a["pat"]).group(1) for a in m["arms"] if a["pat"].startswith("VirtualOp::")}
     missing = [k for k in KEEP_INV if k not in have]
     if missing:
         raise vf.Undecided("const_indexing_aggregates_function: no arm for %s in the per-op match" % ", ".join(missing))
+    if body.count(m["text"]) != 1:
+        raise vf.Undecided("const_indexing_aggregates_function: the per-op match is not (once) inside the retain_mut closure")
     # R8: keep the arms of the modelled variants; the others (LoadDataId: needs the data section; `_`: BTreeSet of def registers) are dropped
-    pieces, last, body = [], 0, m["text"]
+    pieces, last, mt = [], 0, m["text"]
     dropped = []
     for arm in m["arms"]:
         mm = re.match(r"VirtualOp::(\w+)", arm["pat"])
         keep = bool(mm) and mm.group(1) in KEEP_INV
-        pieces.append(body[last:arm["start"]])
+        pieces.append(mt[last:arm["start"]])
         if keep:
-            pieces.append(body[arm["start"]:arm["end"]])
+            pieces.append(mt[arm["start"]:arm["end"]])
             last = arm["end"]
         else:
             dropped.append(arm["pat"])
             e = arm["end"]
-            cm = re.match(r"\s*,", body[e:])
+            cm = re.match(r"\s*,", mt[e:])
             last = e + (cm.end() if cm else 0)
-    pieces.append(body[last:])
-    rep["MATCH"] = "".join(pieces)
+    pieces.append(mt[last:])
+    rep["CLOSURE_BODY"] = body.replace(mt, "".join(pieces))
+    rep["OPPARAM"] = c["params"][0]
     rewrites.append({"rule": "R8", "before": "per-op match with %d arms" % len(m["arms"]), "after": "arms kept: %s; dropped: %s" % (", ".join(KEEP_INV), ", ".join(dropped)), "times": 1})
     rep["VirtualOp"] = filter_enum(rep["VirtualOp"], set(KEEP_INV), rewrites)
-    for k in ("VirtualOp", "VirtualImmediate12", "VirtualImmediate18"):
+    for k in ("VirtualOp", "VirtualImmediate12", "VirtualImmediate18", "ConstantRegister", "JumpType", "ControlFlowOp"):
         rep[k] = "pub " + re.sub(r"^pub(\([a-z]+\))?\s+", "", rep[k])
     rep["VirtualImmediate12"] = rep["VirtualImmediate12"].replace("value: u16", "pub value: u16")
     rep["VirtualImmediate18"] = rep["VirtualImmediate18"].replace("value: u32", "pub value: u32")
@@ -301,23 +361,24 @@ def build_inv(tier):
     # MUL: 64x64->128 multiplication under SAT takes ~14 min (z3 crashes CBMC's SMT back end on this unit); thorough tier only.
     # In the quick tier the MUL arm is covered by c07_constidx/mul_tracks_vm_result.
     for k in [x for x in KEEP_INV if tier != "quick" or x != "MUL"]:
-        solver = ""
-        hs.append("#[kani::proof] #[kani::unwind(5)] %sfn arm_%s() { check(%s); }" % (solver, k.lower(), GEN[k]))
+        hs.append("#[kani::proof] #[kani::unwind(5)] fn arm_%s() { check(%s); }" % (k.lower(), GEN[k]))
         obs.append(vf.Ob("arm_%s" % k.lower(), "C07", panic_prop="C17",
-                         what="const_indexing_aggregates_function, %s arm as a transfer function: from every table/machine state satisfying the tracking invariant, the (possibly rewritten / removed) instruction does what the original did and the invariant holds afterwards; 3 registers, every register choice" % k))
+                         what="const_indexing_aggregates_function, retain_mut closure on a %s: from every table/machine state satisfying the tracking invariant, the (possibly rewritten / removed) instruction does what the original did and the invariant holds afterwards; registers {v0, v1, $$retv}, every register choice" % k))
+    obs.append(vf.Ob("org_ops", "C07", panic_prop="C17",
+                     what="const_indexing_aggregates_function, retain_mut closure on an organizational op: the op is kept and no fact survives that need not hold at the next op (label: arbitrary state; call: $$retv clobbered; POPA: virtual registers restored; conditional jump / comment / PUSHA: state unchanged)"))
     src = ENV_INV
     for k, v in rep.items():
         if isinstance(v, str):
             src = src.replace("@%s@" % k, v)
     src = src.replace("@HARNESSES@", "\n    ".join(hs))
-    u = vf.KaniUnit("c07_constidx_inv", {"src/lib.rs": src}, obs, timeout_s=1200, jobs=7, auto_files=[CF, VI])
-    u.fragments = [vf.frag_record(fr[k]) for k in fr]
-    u.rewrites = rewrites + [{"rule": "R5", "before": "`match op {..}` inside the retain_mut closure", "after": "fn step_arm(reg_contents, latest_version, op) -> retain", "times": 1}]
+    u = vf.KaniUnit("c07_constidx_inv", {"src/lib.rs": src}, obs, deps={"either": "1"}, timeout_s=1800, jobs=8, auto_files=[CF, VI])
+    u.fragments = [vf.frag_record(fr[k]) for k in fr if k != "m"]
+    u.rewrites = rewrites + [{"rule": "R5", "before": "closure `|op| {..}` passed to self.ops.retain_mut", "after": "fn step(reg_contents, latest_version, data_section, op) -> bool with the closure body verbatim (captured tables become &mut parameters)", "times": 1}]
     u.assumptions = [
         "the tracking invariant (fn inv) is mine: it is what makes the LW/SW rewrite and the MOVE removal sound; the pass states no invariant itself",
-        "FxHashMap replaced by a 3-slot map (get/insert/remove/entry.and_modify.or_insert); VirtualRegister reduced to three virtual registers; reserved registers, LoadDataId and the catch-all arm (def_registers: BTreeSet) are not modelled",
-        "the clearing of both tables at organizational ops (labels, jumps) is read, not contracted; ADD/ADDI/MUL successor states exist only when the VM does not panic on overflow",
-        "LW: the loaded value is arbitrary; memory itself is not modelled (only the address computation base + 8*imm)",
+        "effects of organizational ops on the register file (fn org_ops) written by hand from the calling convention: a call clobbers reserved registers ($$retv) and preserves virtual registers (PUSHA/POPA in the callee); POPA rewrites the general registers; a label can be reached from elsewhere",
+        "FxHashMap replaced by a 3-slot map (get/insert/remove/clear/entry.and_modify.or_insert); register file reduced to two virtual registers and $$retv; LoadDataId and the catch-all arm (def_registers: BTreeSet) are not modelled",
+        "ADD/ADDI/MUL successor states exist only when the VM does not panic on overflow; LW: the loaded value is arbitrary, memory itself is not modelled (only the address computation base + 8*imm)",
     ]
     u.heavy = True
     return [u]
